@@ -78,6 +78,13 @@ func (tc *TrCtx) emitAlloc(v TVal) {
 	if !ok {
 		return
 	}
+	ck := "ac\x00" + v.t + "\x00" + tc.st.next + "\x00" + c
+	if len(tc.bound) == 0 && len(tc.letDefs) == 0 {
+		if tc.vc.factSeen[ck] {
+			return
+		}
+		tc.vc.factSeen[ck] = true
+	}
 	var fact string
 	switch v.typ.Underlying().(type) {
 	case *types.Pointer, *types.Map:
